@@ -640,8 +640,8 @@ class Log(registering.StoriedRegistrar):
                     #self.formats[tag][field] = fmt
 
 
-        if self.rule in (CHANGE, ):  # build last copies for if changed
-            self.lasts.clear()
+        if self.rule in (CHANGE, ) and self.stamp is None:  # build last copies once
+            self.lasts.clear()  # after a restart keep the last logged values
             for tag, fields in self.fields.items():  # list of fields by tag
                 loggee = self.loggees[tag]
                 lasts = [(key, loggee[key]) for key in fields if key in loggee]
